@@ -2,12 +2,52 @@
 """Writes MANIFEST.json from the table below (kept in one place so it stays valid)."""
 import json, os
 HERE = os.path.dirname(os.path.dirname(os.path.abspath(__file__)))
+COMMON_NOTE = ('Trusted: Coq 8.16.1 kernel; no axioms (every property theorem prints "Closed under the global context", checked on every run); '
+               'extraction with ExtrOcamlBasic only; the hand-written model is tied to the code by the sampled correspondence '
+               '(tier B: implementation vs extracted model after every operation) and the property itself is evaluated on the implementation (tier A); '
+               'theorems are about the model. ')
+def em(text, technique, design, extra=''):
+    return dict(text=text, note=COMMON_NOTE + extra, technique=technique, design=design)
 CHECKS = {
+ 'C01': em('Skeleton.v models the id table, free list, archetype member lists and command buffers; SkelSpec.v is the liveness specification. Proved so far: see evidence (theorem list); the full refinement theorem valid-iff-alive is stated and evaluated on concrete scripts in Coq. Every generated script (owner and worker threads, nested locks) is run on the real EntityManager, on the extracted Skeleton (exact internal state) and on the extracted specification (validity of every handle ever issued after every step, archetype member sets, freshness of every issued handle).',
+           'Coq model + spec, theorems by induction over operations; model-vs-implementation correspondence on generated multi-thread scripts', '5/C01'),
+ 'C02': em('Manager.v is the faithful executable model of EntityManager/Archetype/TemporalStorage with component values; MgrSpec.v is the abstract world map. Proved: see evidence; the refinement statement (Refine.refinement_statement) is stated in full and evaluated on concrete scripts in Coq. Tier A compares, for every live entity after every operation, its component set and values with the specification, and checks archetype membership (each member once, same set + shared values => same archetype).',
+           'Coq model + abstract spec; correspondence (exact state, values, lifecycle log) on generated scripts incl. run-time described components and storage-chunk boundaries', '5/C02'),
+ 'C03': em('The Manager model emits every lifecycle event (construct, move-construct, move-assign, destroy, afterAssign, beforeRemove) with its place; the implementation\'s instrumented component types log the same events with canonicalised addresses. Tier B: identical logs. Tier A: per-place bracket language (nothing constructed over a live instance, nothing destroyed twice, nothing alive after teardown - also teardown with non-empty command buffers) and callback counts per attachment/detachment against the specification.',
+           'Coq model with event log; log correspondence + bracket-language checker on generated scripts with teardown at arbitrary points', '5/C03'),
+ 'C04': em('Iter.v models block construction, the entities-per-task split, the task cursor, archetype segments, array cuts (block end / storage-chunk end / task end) and the unrolled loop. Proved: blocks select exactly the matching indices (any population, chunk size, pattern); unrolled loop = 0..n-1; task sizes. The cover statement for cursor/segments/arrays is stated and evaluated on concrete configurations for T = 1..N+1. Tier A on every job run: each selected entity once with its own values, entity index 0..N-1 once, task k gets its contiguous index range, arrays contiguous inside one storage chunk.',
+           'Coq proofs on pure iteration functions; job-run correspondence (arrays, task ids, entity indexes) with forced task counts and small storage chunks', '5/C04'),
+ 'C05': em('Proved about Manager.v for every state: operations issued while locked (any thread id, typed or by id) leave everything observable unchanged (C05_isolation); only the outermost unlock flushes; a pack whose target is not alive is skipped. The flush-faithfulness statement is Refine.refinement_statement (stated, evaluated on scripts in Coq, open findings as refuted theorems). Tier A: isolation of the observable state around every locked operation, and state after unlock = sequential specification, on scripts with worker threads issuing commands through the real dispatcher workers.',
+           'Coq theorems on the manager model (isolation, pack skipping) + spec-vs-implementation comparison after every unlock', '5/C05'),
+ 'C06': em('(a) split sizes proved (C04/Iter); (b) the barrier theorem of the Dispatcher LTS: when wait passes, every task enqueued before it has finished; recorded dispatcher traces are replayed through the LTS; (c) data-race freedom is not provable in a Gallina model: it is the models\' premise and is checked with ThreadSanitizer in the thorough tier (claimed as partial).',
+           'Coq proofs (task split, barrier invariant) + trace validation; TSan as premise check', '5/C06', 'Partial: race freedom validated, not proved. '),
+ 'C07': em('Manager.v models the version stamps (world version, per-archetype global and per-chunk stamps, job last-update version) exactly; tier B compares all stamps after every operation. Tier A: an independent dirty-set oracle derived from the implementation\'s own observable output: every entity written, marked, created, moved or relocated since a job last processed it must be processed by that job\'s next run.',
+           'Coq model of stamps + exact stamp correspondence; dirty-set oracle on generated histories of update/jobs/writes/structural changes', '5/C07'),
+ 'C08': em('Dispatcher.v is an LTS over the schedule-point events; proved for every trace/worker count: an invariant (waiting counter = idle-waiting workers, every popped task finished or held by its popper, serial queues held by at most one thread), the barrier theorem (wait returns only after all earlier work finished), serial exclusivity, parallelFor tiling. Recorded traces of the real dispatcher (seeded random yields at every schedule point) are replayed through the extracted LTS; task-level counters judge exactly-once, order, thread ids, shutdown.',
+           'Coq LTS + invariant proofs; trace validation against the implementation through a guarded schedule-point hook', '5/C08', 'Partial: liveness (wait always returns) is observed on executions, not proved. '),
+ 'C09': em('Proved about Manager.v for every state and every handle the validity test rejects: each checked entry point returns null/false/nothing and leaves the state unchanged; update drops destroy requests of dead handles; at unlock the whole pack of a dead target is skipped. Tier A/B on scripts with a malformed stream (stale, null, foreign-world and arbitrary 64-bit handles through every checked entry point, immediate and deferred).',
+           'Coq theorems (harmlessness) + malformed-handle stream correspondence', '5/C09'),
+ 'C10': em('Layout.v computes column offsets / chunk size / chunk alignment with the align-up GENERATED from id_deff.hpp. Proved for every component list (power-of-two alignments, sizes multiple of alignment, no 32-bit overflow): every item address is aligned, columns are disjoint and inside the chunk. Tier B: offsets/size/alignment of real archetypes equal the model; tier A: every address handed out is aligned and in bounds; default-context world construction. Memory-safety proper (use-after-free, UB) is validated with ASan/UBSan in the thorough tier.',
+           'Coq proof over translated align-up + layout correspondence; sanitizers as validation', '5/C10', 'Partial: UAF/UB not provable in the model. '),
+ 'C11': em('Same model and stamp correspondence as C07. Tier A: chunk-precision oracle: a job with a non-empty check mask inside its required mask processes only version chunks in which something changed since it last processed them (quiescent runs process nothing); chunk-size resolution is part of the model (resolve_chunk) and compared through the archetype chunk size.',
+           'Coq model of stamps + exact correspondence; chunk-precision oracle', '5/C11'),
+ 'C12': em('Manager.v models SharedComponentsInfo (mask/ids/data lists), value deduplication and the archetype key; tier A: shared values per entity equal the specification and instances are one per distinct (type, value). Open finding: creation-time shared instances are not deduplicated.',
+           'Coq model + spec comparison of shared values/instances', '5/C12'),
+ 'C13': em('Manager.v models addDependency / getExtraComponents (fuelled fixpoint) and every archetype lookup widening by the closure; MgrSpec.closure is the least-fixpoint specification. Tier A: every entity\'s component set is closed, dependents carry their default values, removing a dependent is a no-op, for all four ways of gaining a component, immediate and deferred, random dependency graphs incl. cycles.',
+           'Coq model + closure spec; correspondence on random dependency graphs', '5/C13'),
+ 'C14': em('Systems.v models reorderSystems (fold of update_before, priority sort, greedy placement) and the lifecycle automaton. Proved for every set of systems with unique names: the order is a permutation, a valid greedy order (constraints and priority rule), and the ordering throws exactly when the constraints contain a cycle (knot); the loop bound never causes a failure. Tier B: callback logs and states equal the model for distinct priority keys; tier A: order, lifecycle legality, removed systems never called, exception iff cycle.',
+           'Coq proofs (permutation, greedy validity, stuck iff knot) + callback-log correspondence', '5/C14'),
+ 'C15': em('Events.v models the slot tables; proved: every operation on any manager/type delivers exactly the specification\'s subscriber list and preserves the abstraction (step refinement from the initial state); registration is a frame for every other type; the pinned resize is refuted. Tier A/B: deliveries equal specification and model on scripts over several managers and types in any order.',
+           'Coq refinement proof to a subscription-map spec + delivery correspondence', '5/C15'),
  'C16': dict(
     text='Theorems (Coq 8.16, closed under the global context) over definitions regenerated on every run from ecs/entity.hpp and ecs/id_deff.hpp by tools/cxx2coq.py: pack/unpack round trips for all in-range triples and all 2^64 patterns, next-version, null, equality, align-up and chunk/item split for all 32-bit arguments. The translator is validated by running the real inline functions against the extracted generated code.',
     note='Trusted: Coq kernel, tools/cxx2coq.py + clang JSON AST, C unsigned wrap modelled as mod 2^w; no axioms.',
     technique='Coq proof over source-translated definitions (bit-level extensionality + lia); translator validated differentially',
     design='5/C16'),
+ 'C17': em('Worlds.v models the process-global id allocator; proved for every create/destroy history with at most 1024 simultaneously live worlds: every id fits the 10-bit field, a new id differs from every live id, the allocator invariant holds; with C16, a handle of one live world is rejected by every other. Tier A: cross-validity of every handle in every live world, frame (an operation on one world leaves the others\' digests unchanged), >1024 sequential worlds; tier B: exact ids.',
+           'Coq proofs on the allocator + multi-world correspondence', '5/C17'),
+ 'C18': em('The same scripts run through the C interface only (capi_driver), through the C++ interface (em_driver) and on the model; R/H lines must agree three ways over all 64 subsets of optional functions/default value. Theorems: see evidence.',
+           'three-way correspondence C interface / C++ interface / Coq model', '5/C18'),
 }
 NOT_YET = {}
 ALL = ['C%02d' % i for i in range(1, 19)]
